@@ -157,7 +157,8 @@ def _analyze_one(modname, fnname, case, timeout, floatmodel, exclusions, first):
     err = None
     try:
         for m in run_checkables(analyze_function(fn, opts)):
-            msgs.append({"state": m.state.name, "message": m.message[:2000], "line": m.line})
+            msgs.append({"state": m.state.name, "message": m.message[:2000], "line": m.line,
+                         "tb": (m.traceback or "")[-1500:] if m.state.name in ("EXEC_ERR", "POST_ERR") else ""})
     except BaseException as e:  # noqa
         err = "".join(traceback.format_exception_only(type(e), e))[:2000]
     finally:
